@@ -1,4 +1,4 @@
 SPECIFICATION Spec
-CONSTANTS MaxDepth = 3 MaxN = 3 MaxHistView = 1 Fault = "none"
+CONSTANTS MaxDepth = 3 MaxN = 3 MaxHistView = 1 HistClassIdx = {1, 2, 3, 4, 5} Fault = "none"
 INVARIANTS InvTheorems InvStep InvAccumulated InvOutput
 CHECK_DEADLOCK FALSE
